@@ -377,3 +377,58 @@ func H_C19_TCPFallback() {
 	}
 	vAssert(conn.closed == 1, "c19.tcp.conn-closed")
 }
+
+// C19 through the public Ping API: the call reports success only for an acknowledgement of its own sequence
+// number that arrives in time - never for silence, whatever the relation between ProbeInterval (which bounds the
+// life of the pending record) and ProbeTimeout (which bounds the wait).
+func H_C19_PingAPI() {
+	conf := vBaseConfig()
+	conf.ProbeTimeout = []time.Duration{500 * time.Millisecond, 2 * time.Second}[vPick(2)]
+	conf.ProbeInterval = time.Second
+	f := vNewML(conf)
+	m := f.m
+	f.vAddSelf(3, nil)
+	env := vPick(3) // 0 silence, 1 own ack after a symbolic delay, 2 an ack for another sequence number
+	delay := time.Duration(vRange(0, int(3*time.Second)))
+	f.tr.onWrite = func(b []byte, a Address) {
+		if len(b) == 0 || messageType(b[0]) != pingMsg {
+			return
+		}
+		var p ping
+		if decode(b[1:], &p) != nil {
+			return
+		}
+		seq := p.SeqNo
+		switch env {
+		case 1:
+			go func() { time.Sleep(delay); m.invokeAckHandler(ackResp{SeqNo: seq}, time.Now()) }()
+		case 2:
+			go func() { time.Sleep(delay); m.invokeAckHandler(ackResp{SeqNo: seq + 1}, time.Now()) }()
+		}
+	}
+	start := vNow()
+	rtt, err := m.Ping(vPeerA, vAddr("10.0.0.2:7946"))
+	took := vNow().Sub(start)
+	wait := conf.ProbeTimeout
+	if conf.ProbeInterval < wait {
+		wait = conf.ProbeInterval
+	}
+	switch env {
+	case 1:
+		if delay < wait {
+			vAssert(err == nil, "c19.ping.timely-ack-is-success")
+			vAssert(rtt == delay, "c19.ping.rtt")
+			vCover("c19.ping.answered")
+		} else if delay > wait {
+			vAssert(err != nil, "c19.ping.late-ack-is-not-success")
+		}
+	default:
+		vAssert(err != nil, "c19.ping.silence-is-not-success")
+		vCover("c19.ping.unanswered")
+	}
+	vAssert(took <= conf.ProbeTimeout, "c19.ping.returns-by-the-timeout")
+	vAdvance(4 * time.Second)
+	vAssert(len(m.ackHandlers) == 0, "c19.ping.pending-record-discarded")
+}
+
+func init() { vRegister("H_C19_PingAPI", H_C19_PingAPI) }
